@@ -8,6 +8,7 @@ import (
 	"encoding/json"
 	"fmt"
 	"io"
+	"math/big"
 	"os"
 	"path/filepath"
 	"reflect"
@@ -487,6 +488,18 @@ func instrRun(c *core.Ctx) {
 			}
 		}
 	}
+	// (3c) numeric fields at the arithmetic boundaries: every number slot of a template document of each text format
+	// takes every value of a boundary table - small values, powers of two and of ten, and for every word size B in
+	// {2^31, 2^32, 2^53, 2^63, 2^64}, every unit scale S a reader multiplies by (1, 10^3, 10^6, 10^9, 60x10^9, 3600x10^9)
+	// and every rate r of the document the thresholds B*r/S - 1, B*r/S, B*r/S + 1 - each whole and with fractions
+	for _, nc := range numericCases(c.Tier == core.Thorough) {
+		if !c.Mine() {
+			continue
+		}
+		for _, rd := range readersFor(nc.format) {
+			do("numeric."+nc.format, ReadCase{rd, []byte(nc.doc), nc.origin})
+		}
+	}
 	for _, g := range binaryGenerators {
 		g(c, do)
 	}
@@ -541,6 +554,110 @@ func instrRun(c *core.Ctx) {
 		}
 	}
 	writersRun(c)
+}
+
+type numericCase struct{ format, doc, origin string }
+
+// boundaryNumbers: decimal strings (no sign, no fraction) around the thresholds where count*rate/scale crosses a word size.
+func boundaryNumbers(rates []int64) []string {
+	seen := map[string]bool{}
+	var out []string
+	add := func(v *big.Int) {
+		if v.Sign() < 0 {
+			return
+		}
+		if t := v.String(); !seen[t] {
+			seen[t] = true
+			out = append(out, t)
+		}
+	}
+	for _, v := range []int64{0, 1, 9, 10, 23, 24, 59, 60, 61, 99, 100, 255, 256, 999, 1000, 1001, 32767, 32768, 65535, 65536, 99999, 1000000, 999999999, 1000000000} {
+		add(big.NewInt(v))
+	}
+	for _, bexp := range []uint{31, 32, 53, 63, 64} {
+		b := new(big.Int).Lsh(big.NewInt(1), bexp)
+		for _, sc := range []int64{1, 1000, 1000000, 1000000000, 60000000000, 3600000000000} {
+			for _, r := range rates {
+				t := new(big.Int).Mul(b, big.NewInt(r))
+				t.Div(t, big.NewInt(sc))
+				for d := int64(-1); d <= 1; d++ {
+					add(new(big.Int).Add(t, big.NewInt(d)))
+				}
+			}
+		}
+	}
+	add(new(big.Int).Exp(big.NewInt(10), big.NewInt(19), nil))
+	add(new(big.Int).Exp(big.NewInt(10), big.NewInt(30), nil))
+	return out
+}
+
+func numericCases(thorough bool) (out []numericCase) {
+	fractions := []string{"", ".5", ".999999999", ".0000000001"}
+	// TTML: offset times in every metric, under every frame / tick rate of the table, begin / end / dur
+	type rate struct {
+		attr string
+		v    int64
+	}
+	ttmlDoc := func(rateAttr, timeAttr, val string) string {
+		return `<tt xmlns="http://www.w3.org/ns/ttml" xmlns:ttp="http://www.w3.org/ns/ttml#parameter"` + rateAttr + `><body><div><p begin="1s" ` + timeAttr + `="` + val + `">x</p></div></body></tt>`
+	}
+	frameRates, tickRates := []int64{1, 25, 30, 1 << 31}, []int64{1, 1000, 90000, 10000000, 1<<63 - 1}
+	if !thorough {
+		frameRates, tickRates = []int64{1, 25}, []int64{1, 10000000}
+	}
+	attrs := []string{"end"}
+	if thorough {
+		attrs = []string{"end", "dur", "begin"}
+	}
+	for _, ta := range attrs {
+		for _, m := range []string{"h", "m", "s", "ms"} {
+			for _, n := range boundaryNumbers([]int64{1}) {
+				for _, fr := range fractions {
+					out = append(out, numericCase{"ttml", ttmlDoc("", ta, n+fr+m), "TTML " + ta + "=" + n + fr + m})
+				}
+			}
+		}
+		for _, r := range frameRates {
+			for _, n := range boundaryNumbers([]int64{r}) {
+				for _, fr := range fractions {
+					out = append(out, numericCase{"ttml", ttmlDoc(fmt.Sprintf(` ttp:frameRate="%d"`, r), ta, n+fr+"f"), fmt.Sprintf("TTML frameRate %d %s=%s%sf", r, ta, n, fr)})
+				}
+				out = append(out, numericCase{"ttml", ttmlDoc(fmt.Sprintf(` ttp:frameRate="%d"`, r), ta, "00:00:01:"+n), fmt.Sprintf("TTML frameRate %d %s=00:00:01:%s", r, ta, n)})
+			}
+		}
+		for _, r := range tickRates {
+			for _, n := range boundaryNumbers([]int64{r}) {
+				for _, fr := range fractions {
+					out = append(out, numericCase{"ttml", ttmlDoc(fmt.Sprintf(` ttp:tickRate="%d"`, r), ta, n+fr+"t"), fmt.Sprintf("TTML tickRate %d %s=%s%st", r, ta, n, fr)})
+				}
+			}
+		}
+	}
+	nums := boundaryNumbers([]int64{1})
+	for _, n := range nums {
+		// the rates themselves, and clock-time fields
+		out = append(out, numericCase{"ttml", ttmlDoc(` ttp:frameRate="`+n+`"`, "end", "10f"), "TTML frameRate=" + n},
+			numericCase{"ttml", ttmlDoc(` ttp:tickRate="`+n+`"`, "end", "10t"), "TTML tickRate=" + n},
+			numericCase{"ttml", ttmlDoc(` ttp:frameRate="`+n+`"`, "end", "00:00:01:10"), "TTML frameRate=" + n + " clock frames"})
+		for slot := 0; slot < 4; slot++ {
+			f := []string{"00", "00", "02", "000"}
+			f[slot] = n
+			out = append(out,
+				numericCase{"ttml", ttmlDoc("", "end", f[0]+":"+f[1]+":"+f[2]+"."+f[3]), "TTML clock field " + fmt.Sprint(slot) + "=" + n},
+				numericCase{"srt", "1\n00:00:01,000 --> " + f[0] + ":" + f[1] + ":" + f[2] + "," + f[3] + "\nx\n", "SRT end field " + fmt.Sprint(slot) + "=" + n},
+				numericCase{"srt", "1\n" + f[0] + ":" + f[1] + ":" + f[2] + "," + f[3] + " --> 00:00:05,000\nx\n", "SRT start field " + fmt.Sprint(slot) + "=" + n},
+				numericCase{"vtt", "WEBVTT\n\n00:00:01.000 --> " + f[0] + ":" + f[1] + ":" + f[2] + "." + f[3] + "\nx\n", "WebVTT end field " + fmt.Sprint(slot) + "=" + n},
+				numericCase{"vtt", "WEBVTT\n\n00:00:01.000 --> 00:00:09.000\nx<" + f[0] + ":" + f[1] + ":" + f[2] + "." + f[3] + ">y\n", "WebVTT inline timestamp field " + fmt.Sprint(slot) + "=" + n},
+				numericCase{"ssa", "[Events]\nFormat: Start, End, Text\nDialogue: 0:00:01.00," + f[0] + ":" + f[1] + ":" + f[2] + "." + f[3] + ",x\n", "SSA end field " + fmt.Sprint(slot) + "=" + n})
+		}
+		out = append(out,
+			numericCase{"srt", n + "\n00:00:01,000 --> 00:00:02,000\nx\n", "SRT index=" + n},
+			numericCase{"vtt", "WEBVTT\nX-TIMESTAMP-MAP=MPEGTS:" + n + ",LOCAL:00:00:00.000\n\n00:00:01.000 --> 00:00:02.000\nx\n", "WebVTT MPEGTS=" + n},
+			numericCase{"vtt", "WEBVTT\n\nRegion: id=r width=" + n + "% lines=" + n + " regionanchor=" + n + "%," + n + "% viewportanchor=" + n + "%," + n + "%\n\n00:00:01.000 --> 00:00:02.000 region:r line:" + n + " position:" + n + "% size:" + n + "%\nx\n", "WebVTT settings=" + n},
+			numericCase{"ssa", "[Script Info]\nPlayResX: " + n + "\nPlayDepth: " + n + "\nTimer: " + n + "\nWrapStyle: " + n + "\n\n[V4 Styles]\nFormat: Name, Fontsize, Bold, MarginL, Alignment, Encoding, Outline, AlphaLevel, PrimaryColour\nStyle: a," + n + "," + n + "," + n + "," + n + "," + n + "," + n + "," + n + "," + n + "\n\n[Events]\nFormat: Marked, Layer, Start, End, Style, MarginL, Text\nDialogue: Marked=" + n + "," + n + ",0:00:01.00,0:00:02.00,a," + n + ",x\n", "SSA numbers=" + n},
+			numericCase{"ttml", `<tt xmlns="http://www.w3.org/ns/ttml" xmlns:tts="http://www.w3.org/ns/ttml#styling"><body><div><p begin="1s" end="2s" tts:zIndex="` + n + `" tts:fontSize="` + n + `px" tts:extent="` + n + `% ` + n + `%">x</p></div></body></tt>`, "TTML numbers=" + n})
+	}
+	return
 }
 
 // scaledInside: one cue that grows inside. kind 0: n text lines; 1: one line of n tagged runs; 2: n lines in front of
